@@ -25,7 +25,8 @@ REQUIRED_BUCKETS = ['order:use-before-definition', 'order:definition-before-use'
                     'step:string', 'step:file', 'step:include', 'macro:scope-like-name', 'macro:evaluated-reference', 'macro:nested-macro', 'macro:literal',
                     'call:between-steps', 'call:unbound-macro-raises', 'const:unique-suffix', 'const:full-name', 'const:ambiguous', 'const:none-falls-to-macro',
                     'const:identity-in-container', 'const:invalid-name', 'const:duplicate', 'finalize:ok', 'finalize:unbound', 'finalize:unevaluated',
-                    'macro:used-twice-in-one-value', 'const:defined-between-parses', 'const:name-became-constant-after-use-as-macro', 'finalize:unbound-with-bound-prefix-macro']
+                    'macro:used-twice-in-one-value', 'const:defined-between-parses', 'const:name-became-constant-after-use-as-macro', 'finalize:unbound-with-bound-prefix-macro', 'step:skip_unknown-enabled',
+                    'history:clear_config-keeps-constants']
 ORACLE_COUNTERS = ['oracle_evals', 'consumer_calls', 'constant_lookups', 'finalize_checks']
 _S = {}
 MACROS = ['m0', 'm1', 'a/m2', 'a/b/m3', 'M0', 'a', 'a/b', 'LATEK']
@@ -145,7 +146,8 @@ def iter_cases(ctx, rng, n):
         else:
           stmts.append(['bind', rng.choice(['p', 'q']), gen_tree(rng, rng.choice([0, 1, 2]), pool, spell)])
       kind = rng.choice(['string', 'string', 'file', 'include'])
-      steps.append({'kind': kind, 'stmts': stmts, 'split': rng.randrange(0, len(stmts) + 1), 'call': rng.random() < 0.7})
+      steps.append({'kind': kind, 'stmts': stmts, 'split': rng.randrange(0, len(stmts) + 1), 'call': rng.random() < 0.7,
+                    'skip_unknown': rng.choice([False, False, True, ['some_unknown_name']]), 'clear_before': rng.random() < 0.12})
     late = []
     for si in range(1, len(steps)):
       if rng.random() < 0.5:
@@ -271,6 +273,13 @@ def run_case(ctx, case):
   defined_in_step = {}
   used_before_def = set()
   for si, step in enumerate(case['steps']):
+    if step.get('clear_before') and si:
+      # clear_config() keeps the constants (the very same objects); macros and bindings are gone
+      gin.clear_config()
+      table.clear()
+      store.clear()
+      defined_in_step.clear()
+      ctx.bucket('history:clear_config-keeps-constants')
     for at, name in case.get('late_consts', []):
       if at == si and name not in consts and not any(c.endswith('.' + name) for c in consts):
         sentinels[name] = Sentinel(name)
@@ -303,8 +312,11 @@ def run_case(ctx, case):
       lines = [('%s = %s' % (st[1], mval_text(st[2]))) if st[0] == 'def' else ('c5cons.%s = %s' % (st[1], tree_text(st[2]))) for st in step['stmts']]
     ctx.bucket('step:' + step['kind'])
     stepkinds.append(step['kind'])
+    sk = step.get('skip_unknown', False)
+    if sk:
+      ctx.bucket('step:skip_unknown-enabled')   # nothing here is unknown: macro definitions are never skippable
     if step['kind'] == 'string':
-      gin.parse_config('\n'.join(lines) + '\n')
+      gin.parse_config('\n'.join(lines) + '\n', skip_unknown=sk)
     else:
       fn = os.path.join(_S['tmp'], 'f%d.gin' % next(_S['fileno']))
       if step['kind'] == 'include':
@@ -314,7 +326,7 @@ def run_case(ctx, case):
         open(fn, 'w').write("include '%s'\n" % inc + '\n'.join(lines[k:]) + '\n')
       else:
         open(fn, 'w').write('\n'.join(lines) + '\n')
-      gin.parse_config_file(fn)
+      gin.parse_config_file(fn, skip_unknown=sk)
     # ---- model: statements in application order
     for st in step['stmts']:
       if st[0] == 'def':
